@@ -696,12 +696,18 @@ impl<'r> Lowerer<'r> {
         variant: Identifier,
         arguments: &[Meta<ast::Expr>],
     ) -> Value {
+        // Each argument is assigned to a variable before the next one is
+        // lowered. A `Value` can still be a pending call or clone and lowering
+        // a later argument might emit instructions of its own, which would
+        // then run before that call or clone.
         let arguments: Vec<_> = arguments
             .iter()
             .map(|a| {
                 let ty = self.type_info.type_of(a);
                 let ty = self.type_info.convert(&ty);
-                (self.expr(a), ty)
+                let val = self.expr(a);
+                let var = self.assign_to_var(val, ty);
+                (Value::Move(var), ty)
             })
             .collect();
         self.make_enum(ty, variant, &arguments)
